@@ -326,8 +326,12 @@ func (w *World) ProbeUDP(l Listener, k Key, seed uint64) ProbeResult {
 // reports whether it reached the target and the answer came back.
 func (w *World) ProbeUDPFrom(l Listener, k Key, seed uint64, ip string) ProbeResult {
 	w.nclient++
+	return w.ProbeUDPAt(l, k, seed, fmt.Sprintf("%s:%d", ip, 20000+w.nclient))
+}
+
+// ProbeUDPAt: one datagram from exactly this client address (ip:port), which may have been used before.
+func (w *World) ProbeUDPAt(l Listener, k Key, seed uint64, from string) ProbeResult {
 	key := world.MakeKey(k.ID, k.Cipher, k.Secret)
-	from := fmt.Sprintf("%s:%d", ip, 20000+w.nclient)
 	sock, err := vnet.EnvListenUDP(world.UDPAddr(from))
 	if err != nil {
 		panic(err)
